@@ -32,6 +32,11 @@ type Case struct {
 	Src   string   `json:"src"` // combo | edit | walk
 	CLI   bool     `json:"cli,omitempty"`
 	Edits []string `json:"edits,omitempty"`
+	// Tx "none" applies the changes WITHOUT the wrapping transaction (Driver.ApplyChanges on the plain
+	// connection / `schema apply --tx-mode none`). sqlite.OpenTx switches foreign key enforcement off
+	// around the transaction itself; without it only the plan's own `PRAGMA foreign_keys = off/on`
+	// wrapper protects the children of a rebuilt parent table on an enforcing (`_fk=1`) connection.
+	Tx string `json:"tx,omitempty"`
 }
 
 // Outcome is what one execution showed.
@@ -355,7 +360,11 @@ func runPair(ctx context.Context, atlas, dir string, cs Case) (o Outcome) {
 			o.Inconclusive = err.Error()
 			return
 		}
-		r := sqlm.RunCLI(atlas, dir, "schema", "apply", "--url", "sqlite://f.db?_fk=1", "--to", u, "--auto-approve")
+		args := []string{"schema", "apply", "--url", "sqlite://f.db?_fk=1", "--to", u, "--auto-approve"}
+		if cs.Tx == "none" {
+			args = append(args, "--tx-mode", "none")
+		}
+		r := sqlm.RunCLI(atlas, dir, args...)
 		o.Detail = map[string]any{"cli": r}
 		if r.Hung {
 			o.Inconclusive = "cli hung"
@@ -387,7 +396,12 @@ func runPair(ctx context.Context, atlas, dir string, cs Case) (o Outcome) {
 			o.Inconclusive = err.Error()
 			return
 		}
-		res := sqlm.Apply(ctx, db, cs.B)
+		var res sqlm.Applied
+		if cs.Tx == "none" {
+			res = sqlm.ApplyNoTx(ctx, db, cs.B)
+		} else {
+			res = sqlm.Apply(ctx, db, cs.B)
+		}
 		db.Close()
 		o.Applied = res
 		haveChangeSet = true
@@ -411,7 +425,11 @@ func runPair(ctx context.Context, atlas, dir string, cs Case) (o Outcome) {
 		return
 	}
 	if o.Failed {
-		// a failing plan must leave everything unchanged (schema, rows, indexes)
+		// a failing plan must leave everything unchanged (schema, rows, indexes) — when it ran in a
+		// transaction; `--tx-mode none` promises no atomicity, so no demand is made there
+		if cs.Tx == "none" {
+			return
+		}
 		if same, why := before.Equal(after); !same {
 			o.atom("failed-plan-changed-database", "failed", map[string]any{"error": o.Applied.Err, "difference": why})
 		}
@@ -436,7 +454,7 @@ func (m *monitor) keyFor(ctx context.Context, dir string, cs Case, atom string) 
 			return false
 		}
 		b, _ := json.Marshal(p)
-		mk := atom + "\x00" + fmt.Sprint(cs.CLI) + string(b)
+		mk := atom + "\x00" + fmt.Sprint(cs.CLI) + cs.Tx + string(b)
 		if v, ok := m.memo.Load(mk); ok {
 			return v.(bool)
 		}
@@ -454,6 +472,15 @@ func (m *monitor) keyFor(ctx context.Context, dir string, cs Case, atom string) 
 	min, runs := sqlm.Shrink(cs.Pair, still, budget)
 	f := min.Features()
 	f = slices.DeleteFunc(f, func(s string) bool { return s == "rows" })
+	if cs.Tx == "none" {
+		// does the failure need the missing transaction?
+		c2 := cs
+		c2.Pair, c2.Tx = min, ""
+		if o := runPair(ctx, m.c.Atlas, filepath.Join(dir, "shrink"), c2); !slices.Contains(o.Atoms, atom) {
+			f = append(f, "tx:none")
+			sort.Strings(f)
+		}
+	}
 	return m.c.Prop + "|" + atom + "|" + strings.Join(f, "+"), min, runs
 }
 
@@ -468,6 +495,9 @@ func (m *monitor) evaluate(ctx context.Context, dir string, cs Case) Outcome {
 	c.Count("leg:"+leg, 1)
 	c.Count("src:"+cs.Src, 1)
 	c.Count("mode:"+cs.Mode, 1)
+	if cs.Tx == "none" {
+		c.Count("tx:none", 1)
+	}
 	switch {
 	case o.Inconclusive != "":
 		m.inconcl.Add(1)
@@ -706,7 +736,17 @@ func workload(c *rt.Ctx) []Case {
 		b, es := sqlm.RandomEdits(r, base, 2+r.IntN(5), i%5 != 0)
 		add(Case{Pair: sqlm.Pair{A: base, B: b, Mode: modes[r.IntN(len(modes))]}, Name: fmt.Sprintf("walk%d:%s+%d", i, bn, len(es)), Src: "walk", Edits: kindsOf(es)})
 	}
-	// 4. CLI sample
+	// 4. the plan's own foreign-key wrapper: one change set that rebuilds a PARENT table and, later in
+	// the change order, alters another table in place; the populated CHILD (ON DELETE CASCADE / SET
+	// NULL / SET DEFAULT / RESTRICT / NO ACTION) is outside the change set. Applied without the
+	// wrapping transaction on an enforcing connection (and with it, for comparison). Deterministic:
+	// every cross-table foreign key of the pool, not a sample.
+	fkw := fkWrapperCases(pool, modes, c.Quick())
+	for _, cs := range fkw {
+		add(cs)
+	}
+	c.Count("fk-wrapper-cases", int64(len(fkw)))
+	// 5. CLI sample
 	if c.Atlas != "" {
 		r = c.Rand(5)
 		want := c.Pick(20, 200)
@@ -726,8 +766,92 @@ func workload(c *rt.Ctx) []Case {
 			cs.Name = "cli:" + cs.Name
 			cases = append(cases, cs)
 		}
+		// and, always, some of the wrapper cases through `schema apply --tx-mode none`
+		n = 0
+		for _, cs := range cases {
+			if cs.Src == "fk-wrapper" && cs.Tx == "none" && !cs.CLI {
+				if n%c.Pick(4, 1) == 0 {
+					cs.CLI = true
+					cs.Name = "cli:" + cs.Name
+					cases = append(cases, cs)
+				}
+				n++
+			}
+		}
 	}
 	return cases
+}
+
+// fkWrapperCases builds, for every foreign key child -> parent (child != parent) of the pool schemas, pairs
+// whose change set rebuilds the parent (a CHECK is added to it) and afterwards alters a table placed
+// last in the schema in place (add index / add column); the child is not edited. The foreign key's
+// ON DELETE action is also forced to CASCADE and to SET NULL where the model allows it.
+func fkWrapperCases(pool []sqlm.PoolEntry, modes []string, quick bool) []Case {
+	var out []Case
+	n := 0
+	for _, pe := range pool {
+		if pe.Name == "all" && quick {
+			continue
+		}
+		for _, child := range pe.S.Tables {
+			for fi, f := range child.FKs {
+				if f.RefTable == child.Name {
+					continue
+				}
+				actions := []string{f.OnDelete, "CASCADE", "SET NULL"}
+				seen := map[string]bool{}
+				for _, act := range actions {
+					if seen[act] {
+						continue
+					}
+					seen[act] = true
+					a := pe.S.Clone()
+					a.Table(child.Name).FKs[fi].OnDelete = act
+					a.Tables = append(a.Tables, sqlm.Table{Name: "zlast", Cols: []sqlm.Col{{Name: "id", Type: "integer"}, {Name: "v", Type: "text", Null: true}}, PK: []string{"id"}})
+					if a.Validate() != nil {
+						continue // e.g. SET NULL on a NOT NULL column
+					}
+					// rebuild of the parent: add a named check (always the copy path, always data compatible)
+					var b sqlm.Schema
+					found := false
+					for _, e := range sqlm.Neighbourhood(a) {
+						if e.Table == f.RefTable && e.Kind == "check.add.named" {
+							b, found = e.Apply(a), true
+							break
+						}
+					}
+					if !found {
+						continue
+					}
+					for v := 0; v < 2; v++ {
+						bb := b.Clone()
+						z := bb.Table("zlast")
+						edit := "idx.add.plain"
+						if v == 0 {
+							z.Idx = append(z.Idx, sqlm.Idx{Name: "zlast_v", Parts: []sqlm.Part{{Col: "v"}}})
+						} else {
+							edit = "col.add.null"
+							z.Cols = append(z.Cols, sqlm.Col{Name: "w", Type: "integer", Null: true})
+						}
+						if bb.Validate() != nil {
+							continue
+						}
+						if ok, _ := sqlm.DataSafe(a, bb); !ok {
+							continue
+						}
+						name := fmt.Sprintf("fk-wrapper:%s/%s.%s->%s on delete %s +%s", pe.Name, child.Name, f.Name, f.RefTable, act, edit)
+						mode := modes[n%len(modes)]
+						n++
+						out = append(out, Case{Pair: sqlm.Pair{A: a, B: bb, Mode: mode}, Name: name + " (tx none)", Src: "fk-wrapper", Tx: "none", Edits: []string{"check.add.named", edit}})
+						if v == 0 {
+							out = append(out, Case{Pair: sqlm.Pair{A: a, B: bb, Mode: mode}, Name: name, Src: "fk-wrapper", Edits: []string{"check.add.named", edit}})
+						}
+					}
+				}
+			}
+		}
+	}
+	return out
 }
 
 func run(c *rt.Ctx) {
@@ -739,7 +863,7 @@ func run(c *rt.Ctx) {
 		w.Begin(cs)
 		m.evaluate(ctx, filepath.Join(c.Scratch, fmt.Sprintf("w%d", w.ID)), cs)
 	})
-	c.Finish("populated pair (current, desired), every cell a unique tagged value: after the plan (in-process ApplyChanges in sqlite.OpenTx, and CLI schema apply on a sample) "+
+	c.Finish("populated pair (current, desired), every cell a unique tagged value: after the plan (in-process ApplyChanges in sqlite.OpenTx and, for change sets that rebuild a parent table while altering another in place, also WITHOUT the transaction on an enforcing connection; CLI schema apply incl. --tx-mode none on a sample) "+
 		"row counts are equal, the multiset of tuples over surviving same-affinity stored columns is equal (NULL -> default only where the column turned NOT NULL DEFAULT d), "+
 		"tables outside the change set keep rows, stored SQL and indexes, new tables are empty; a failing plan leaves the whole dump unchanged. rowids are not compared. "+
 		"distinct = distinct plan texts", map[string]any{"cases": len(cases), "copy_branches": m.branch, "exhaustive": !c.Quick()})
